@@ -62,6 +62,7 @@ def required_counters(tier):
         "raise.with_tentative": 100,
         "pass.repeated": 500,
         "probes": 1000,
+        "array.nested_annotation": 300,
         "suite.events": 1000,
         "suite.failed_or_raised_events": 100,
     }
@@ -139,9 +140,16 @@ def ensure_faulty_registered():
         _reg = True
 
 
-def Ann(cat, spec, arr=np.ndarray):
+def Ann(cat, spec, arr=np.ndarray, nest=None):
+    """nest=k: build the same meaning as a nested annotation, the first k tokens outside"""
     import jaxtyping
 
+    if nest is not None:
+        toks = spec.split()
+        outer, inner = toks[:nest], toks[nest:]
+        n_var = lambda ts: sum(("*" in t.split("=")[-1]) or t == "..." for t in ts)
+        if n_var(outer) <= 1 and n_var(inner) <= 1 and not (n_var(outer) and n_var(inner)):
+            return getattr(jaxtyping, cat)[jaxtyping.Shaped[arr, " ".join(inner)], " ".join(outer)]
     return getattr(jaxtyping, cat)[arr, spec]
 
 
@@ -288,9 +296,12 @@ def scen_array(rec, rng, single, variadic, state, args):
         shape = shape[:-1] if shape and rng.random() < 0.5 else shape + [2]
     mv, tent = tentative_names(toks, shape, single, variadic, args)
     names, vnames = spec_names(spec)
-    desc = {"family": "array", "state": state, "spec": spec, "shape": shape}
+    nest = rng.randint(0, len(spec.split())) if rng.random() < 0.3 else None
+    desc = {"family": "array", "state": state, "spec": spec, "shape": shape, "nested_at": nest}
+    if nest is not None:
+        rec.count("array.nested_annotation")
     x = real.np_array(shape)
-    ann = Ann("Float", spec)
+    ann = Ann("Float", spec, nest=nest)
     judge(rec, desc, lambda: isinstance(x, ann), names, vnames, [], tent if mv != "ok" else (), "array")
 
 
